@@ -8,12 +8,12 @@ ROOT = os.path.dirname(os.path.dirname(os.path.abspath(__file__)))
 CHECKS = {
  "C12": ("model_checking",
          "explicit-state BFS (stateright) over the real ErrorQueue implementations in lock-step with a FIFO reference model",
-         "Every reachable state of ArrayVec<Error,N> (every N in the stated range) and of Vec<Error> (length-bounded) under push/pop/clear over a 3-5 error alphabet is visited; each transition executes the real queue code and compares pop result, length, emptiness and full drained content with a FIFO model. Complete inside the bound; the queue code does not branch on error values, so the alphabet is representative. Plus two deterministic deep histories (1200 steps, growth past 256 entries, drain, clear, reuse) outside the BFS bound.",
+         "Every reachable state of ArrayVec<Error,N> (every N in the stated range) and of Vec<Error> (length-bounded) under push/pop/clear over a 2-5 error alphabet (capacities 1..5 quick, 1..12 thorough; Vec up to 4/8 entries) is visited; each transition executes the real queue code and compares pop result, length, emptiness and full drained content with a FIFO model. Complete inside the bound; the queue code does not branch on error values, so the alphabet is representative. Plus two deterministic deep histories (1200 steps, growth past 256 entries, drain, clear, reuse) outside the BFS bound.",
          "Trusted: the 15-line FIFO reference, stateright's BFS/dedup, Clone/Hash of the queue value. Capacities above the bound and pushes of other error values are not explored.",
          "DESIGN.md section 5 (C12)"),
  "C13": ("model_checking",
          "explicit-state BFS (stateright) over the documented SCPI device and full mandated command tree, every transition a real Node::run compared with a reference model of queue + ESR",
-         "All reachable states (error queue content up to a length bound, ESR, ESE, SRE, status registers) of the documented device under an alphabet of whole program messages: valid commands, one failing message per error kind and raising mechanism, *OPC, SYST:ERR[:NEXT]?/COUNt?/ALL?, *ESR?, and multi-unit messages that mix failures and queries. Each transition runs the real parser, dispatcher, handlers and device glue and compares return value, response bytes, queue content and ESR with the model. Complete within the alphabet and bound; histories of any length are covered through the fixpoint. Plus three deterministic deep lock-step histories outside the BFS bound (300 unread items with COUNt? at 255/256/257, interleaved *OPC/reads, class-boundary error numbers).",
+         "All reachable states (error queue content up to 3 (quick) / 4 (thorough) entries for the growable queue, the fixed queues of 2 and 3 entries without bound; ESR, ESE, SRE, status registers) of the documented device under an alphabet of whole program messages: valid commands, one failing message per error kind and raising mechanism, *OPC, SYST:ERR[:NEXT]?/COUNt?/ALL?, *ESR?, and multi-unit messages that mix failures and queries. Each transition runs the real parser, dispatcher, handlers and device glue and compares return value, response bytes, queue content and ESR with the model. Complete within the alphabet and bound; histories of any length are covered through the fixpoint. Plus three deterministic deep lock-step histories outside the BFS bound (300 unread items with COUNt? at 255/256/257, interleaved *OPC/reads, class-boundary error numbers).",
          "Trusted: the reference model (scpimodel.rs, ~250 lines, written from SCPI-99 21.8 / IEEE 488.2 11.5), the binding table message-text -> semantic action, stateright. Queue length is bounded for the growable queue; error kinds outside the alphabet are not explored.",
          "DESIGN.md section 5 (C13)"),
  "C15": ("model_checking",
@@ -23,7 +23,7 @@ CHECKS = {
          "DESIGN.md section 5 (C15)"),
  "C16": ("model_checking",
          "explicit-state BFS (stateright), three slices over the documented device, every transition a real Node::run compared with an IEEE 488.2 section 11 reference model",
-         "S1: all reachable (ESR, ESE, SRE, queue, self-test) states under *ESE/*SRE values covering every bit, *ESR?, *STB? with MAV both ways, *CLS, *OPC, *OPC?, *TST?, *RST, *WAI, a failing message per ESR class, SYST:ERR? and multi-unit combinations. S2: OPER and QUES summary bits against SRE and *STB?. S3: every value 0..255 plus out-of-range, rounded and mistyped values written to *ESE and *SRE and read back. Response, return value and every device register are compared after each message. S2 lets the OPER register range over the subsets of {bit 0, bit 15}.",
+         "S1: all reachable (ESR, ESE, SRE, queue, self-test) states under *ESE/*SRE values covering every bit and several multi-bit masks, *ESR?, *STB? with MAV both ways, *CLS, *OPC, *OPC?, *TST?, *RST, *WAI, a failing message per ESR class, SYST:ERR? and multi-unit combinations. S2: OPER and QUES summary bits against SRE and *STB?. S3: every value 0..255 plus out-of-range, rounded and mistyped values written to *ESE and *SRE and read back. Response, return value and every device register are compared after each message. S2 lets the OPER register range over the subsets of {bit 0, bit 15}.",
          "Trusted: the reference model of the status byte (summary = event & enable per IEEE 488.2 11.4.3; MSS over all other bits incl. MAV; *CLS clears ESR, event registers and error queue), the binding table, stateright. Queue bound 1-2.",
          "DESIGN.md section 5 (C16)"),
  "C02": ("model_checking",
@@ -38,12 +38,12 @@ CHECKS = {
          "DESIGN.md section 5 (C03)"),
  "C14": ("exploration",
          "exhaustive enumeration of all 65536 error numbers against an independent class table, plus a table of library-raised faults",
-         "Every i16 value through Error::custom / ErrorCode::Custom and, where defined, the standard variant (code round trip, esr_mask, message); 63 faulty messages (syntax, header, arity, type -> command error; value -> execution error) run on the documented device checking error class and the ESR bit set.",
+         "Every i16 value through Error::custom / ErrorCode::Custom and, where defined, the standard variant (code round trip, esr_mask, message); ~70 faulty messages (syntax, header, arity, type -> command error; value -> execution error) run on the documented device checking error class and the ESR bit set; non-numeric elements (string, block, expression, non-decimal, character data incl. the special-value mnemonics) offered to 12 quantity / Amplitude / Db types must raise a command error; response-buffer exhaustion must raise an execution error; every number of an independently written list of the SCPI-99 21.8 standard error numbers must be known to the lookup and report itself.",
          "Trusted: the class table in scpimodel::esr_bit_of (15 lines from IEEE 488.2 11.5.1 / SCPI-99 21.8.2); the fault table's classification of each message.",
          "DESIGN.md section 5 (C14)"),
  "C05": ("fault_enumeration",
          "exhaustive enumeration of messages of k units with every failure kind at every position, plus formatter faults at every write (ArrayVec capacity sweep), against a reference executor",
-         "All messages of 1..k units over 12 unit kinds (2 ok kinds per form, handler-returned errors from event and from query after a partial write, -108, -109, -104, -222, -113, lexical error in data, lexical error in header) on a flat and a nested-default tree; for every successful message every buffer capacity below the response length. Compared: the exact handler-invocation log (order, multiplicity, nothing after the failing unit), the returned error (code and extended text) and the Device::handle_error log (exactly that error once; never on success). Directed additions: handler-returned errors with codes 0, -42, +5, and a string response with an embedded quote behind a long segment.",
+         "All messages of 1..k units (k = 4 quick / 6 thorough) over 17 unit kinds (ok kinds per form incl. a query with a long response header and short data, handler-returned errors from event and from query after a partial write, -108, -109, -104, -222, -113, lexical error in data, lexical error in header) on a flat and a nested-default tree; for every successful message every buffer capacity below the response length, and for every failing message every capacity around the bytes written in front of the failing unit (a capacity that holds them must yield the unit's own error - a later buffer or terminator failure must not replace it - and a smaller one must yield -225 at the unit whose write does not fit). Compared: the exact handler-invocation log (order, multiplicity, nothing after the failing unit), the returned error (code and extended text) and the Device::handle_error log (exactly that error once; never on success). Directed additions: handler-returned errors with codes 0, -42, +5, and a string response with an embedded quote behind a long segment.",
          "Trusted: the reference executor (expect/judge in c05.rs), the reference response layout used to locate the failing unit under a capacity fault. Formatter faults other than exhaustion cannot be injected from outside the crate (ResponseUnit has private fields).",
          "DESIGN.md section 5 (C05)"),
  "C06": ("exploration",
@@ -53,12 +53,12 @@ CHECKS = {
          "DESIGN.md section 5 (C06)"),
  "C10": ("exploration",
          "exhaustive enumeration of successful messages up to k units x separators x endings, byte-exact comparison with reference framing on Vec and ArrayVec buffers",
-         "Every sequence of up to 3/4 units over 13 unit kinds (events, queries with 1-5 data of all types, one- and two-level response headers, relative/common headers) x 3 unit-separator spellings x 8 message endings; the output buffer must equal the hand-written unit texts joined by `;` with exactly one NL iff there is output. Directed additions: a unit with 300 data elements, data ending in `;` or NL, long quoted strings and error items.",
+         "Every sequence of up to 3 (quick) / 6 (thorough) units over 17 unit kinds (events, queries with 1-5 data of all types, one- and two-level response headers, a long header with one short datum, relative/common headers) x 3 unit-separator spellings x 8 message endings; the output buffer must equal the hand-written unit texts joined by `;` with exactly one NL iff there is output. Directed additions: a unit with 300 data elements, data ending in `;` or NL, long quoted strings and error items.",
          "Trusted: the hand-written expected response text per unit kind. How an empty response unit is framed is not judged.",
          "DESIGN.md section 5 (C10)"),
  "C11": ("fault_enumeration",
          "for every message every ArrayVec capacity 0..|R|+2 (exhaustion at every write) with a counting global allocator armed around each run",
-         "Every C10-style message up to 2/3 units plus queries of every formattable type family, at every capacity from 0 to beyond the full response: fits => identical bytes, does not fit => -225 once, buffer a prefix of the full response, never a panic; zero allocator calls in every run, including all strings up to length 3/4 over a lexical alphabet (error paths) with a pull-and-convert-everything handler.",
+         "Every C10-style message up to 3 (quick) / 5 (thorough) units x separators x endings plus queries of every formattable type family, at every capacity from 0 to beyond the full response: fits => identical bytes, does not fit => -225 once, never Ok and never a panic (what the buffer holds after a failure is not pinned); zero allocator calls in every run, including all strings up to length 3/5 over a lexical alphabet (error paths) with a pull-and-convert-everything handler.",
          "Trusted: the counting allocator (self-checked), ArrayVec as the fixed-capacity buffer. Capacities above 256 are not instantiated.",
          "DESIGN.md section 5 (C11)"),
  "C04": ("exploration",
@@ -73,12 +73,12 @@ CHECKS = {
          "DESIGN.md section 5 (C01)"),
  "C07": ("exploration",
          "exhaustive structured literal families (sign x integer part x fraction x exponent, all short literals over a numeric alphabet, non-decimal literals, keywords, other types) x 10 integer targets + bool, against an exact big-integer decimal oracle",
-         "About 18k-36k grammar literals (every type bound -1/+0/+1/+2, same-digit-count overflows, every half-integer spelling, exponents from E-400 to E400) and every NRf literal up to length 5/7 over `+-0159.E`, each converted to all ten integer types and bool through TryFrom<Token> and through Parameters::next_data in a real message; non-decimal literals of every bound incl. 64-bit overflow patterns; MIN/MAX keywords; every other element type must give a command error. Ok(r) is accepted iff |r - x| <= 1/2 + one ulp of the intermediate float type at the exact value x (exactly x for NR1 spellings); -222 iff some such integer is unrepresentable.",
+         "About 18k-36k grammar literals (every type bound -1/+0/+1/+2, same-digit-count overflows, every half-integer spelling, exponents from E-400 to E400) and every NRf literal up to length 7/9 over `+-0159.E` and up to length 5/7 over `-.E0123456789`, each converted to all ten integer types and bool through TryFrom<Token> and through Parameters::next_data in a real message; non-decimal literals of every bound incl. 64-bit overflow patterns; MIN/MAX keywords; every other element type must give a command error. Ok(r) is accepted iff |r - x| <= 1/2 + one ulp of the intermediate float type at the exact value x (exactly x for NR1 spellings); -222 iff some such integer is unrepresentable.",
          "Trusted: refmodel/decnum.rs + bigint.rs (exact rational arithmetic, self-checked), the tolerance fixed in DESIGN.md 3.3. 32/64-bit value space is covered by boundary-directed families, not exhaustively.",
          "DESIGN.md section 5 (C07)"),
  "C08": ("exploration",
          "exhaustive structured literal families and constructed halfway cases for f32/f64 against a correctly-rounding reference, all keyword/boolean spellings, and the full (target type x element type) matrix",
-         "~20k literals incl. 17-55 digit mantissas at every float range boundary, converted bit-for-bit against core::str::parse; constructed exact midpoints (and midpoint +/- 1 in the last digit) between adjacent floats for every f32 exponent incl. subnormals and every (8th) f64 exponent over up to 24 mantissa patterns, where the correct neighbour is known by construction from big-integer arithmetic; every case pattern / prefix / near miss of the float keywords and of ON/OFF; 27 targets x 8 element kinds with the documented accept list.",
+         "~20k literals incl. 17-55 digit mantissas at every float range boundary, converted bit-for-bit against core::str::parse; constructed exact midpoints (and midpoint +/- 1 in the last digit) between adjacent floats for every f32 exponent incl. subnormals and every (8th) f64 exponent over 8/6 (quick) and 2048/512 (thorough) mantissa patterns, where the correct neighbour is known by construction from big-integer arithmetic; every case pattern / prefix / near miss of the float keywords and of ON/OFF; 27 targets x 8 element kinds with the documented accept list.",
          "Trusted: core::str::parse as correctly-rounding reference (cross-checked against the by-construction expectation on every halfway case), refmodel/bigint.rs, the accept-list table transcribed from the conversions' rustdoc. f64 mantissa space is covered by patterns, not exhaustively.",
          "DESIGN.md section 5 (C08)"),
  "C09": ("exploration",
@@ -93,7 +93,7 @@ CHECKS = {
          "DESIGN.md section 5 (C19)"),
  "C18": ("exploration",
          "exhaustive enumeration of suffix strings up to a length bound per quantity and storage type, all letter-case variants of accepted suffixes, against a rule-based multiplier x unit oracle",
-         "For each of the 14 supported quantities, with f32 and f64 storage: every suffix string up to length 3/4 over letters `.` `/` and up to length 4/6 over the SCPI unit vocabulary, every documented suffix, over-long and malformed suffixes; every accepted suffix in all 2^len case variants x 6 literals must scale by the SCPI factor (relative 2e-6 / 1e-12); every non-derivable suffix and every non-numeric element must be refused; bare numbers are taken in the base unit; Amplitude (PK/PP/RMS) and Db (DB*) forms are classified with the number unchanged. Plus every one-character extension and several longer extensions of each documented suffix.",
+         "For each of the 14 supported quantities, with f32 and f64 storage: every suffix string up to length 3/4 over letters `.` `/` and up to length 4/6 over the SCPI unit vocabulary, every documented suffix, over-long and malformed suffixes; every accepted suffix in all 2^len case variants x 6 literals must scale by the SCPI factor (relative 2e-6 / 1e-12); every non-derivable suffix and every non-numeric element (string, block, expression, non-decimal, and character data incl. MAXimum MINimum INFinity NINFinity NAN DEFault UP DOWN) must be refused by every quantity, by Amplitude and by Db; bare numbers are taken in the base unit; Amplitude (PK/PP/RMS) and Db (DB*) forms are classified with the number unchanged. Plus every one-character extension and several longer extensions of each documented suffix.",
          "Trusted: the rule oracle in c18.rs (multiplier table from IEEE 488.2 7.7.3 / SCPI-99, unit names and SI factors per quantity). Suffixes allowed by the rules but not implemented (e.g. GV) give no verdict; suffixes in the library's documented tables must be accepted.",
          "DESIGN.md section 5 (C18)"),
  "C17": ("exploration",
@@ -103,7 +103,7 @@ CHECKS = {
          "DESIGN.md section 5 (C17)"),
  "C20": ("exploration",
          "a family of ~630 enum definitions generated at build time and compiled with the real derive macro; every candidate string up to a bound per enum against the reference matcher",
-         "Every subset of size 1..3 of a 12-mnemonic pool (suffixed siblings ALPHa1/ALPHa2, L125/L1, digits-only differences, suffix-less, long/short-only forms) with pairwise non-matching members, in several variant orders, with unit and single-field variants, compiled with #[derive(ScpiEnum)]; for each enum every candidate of length <= 4/5 over `aAbBlL125_` plus longer pool spellings: selection by from_mnemonic and TryFrom<Token> must agree with the reference matcher (else None / -224), other element types give -104, mnemonic() returns the declared literal, and each variant's response text selects the same variant when sent back.",
+         "Every subset of size 1..3 of a 12-mnemonic pool (suffixed siblings ALPHa1/ALPHa2, L125/L1, digits-only differences, suffix-less, long/short-only forms) with pairwise non-matching members, in several variant orders, with unit and single-field variants, compiled with #[derive(ScpiEnum)]; for each enum every candidate of length <= 4/6 over `aAbBlL125_` plus longer pool spellings: selection by from_mnemonic and TryFrom<Token> must agree with the reference matcher (else None / -224), other element types give -104, mnemonic() returns the declared literal, and each variant's response text selects the same variant when sent back.",
          "Trusted: refmodel/mnemonic.rs (C03's reference), the build.rs generator. Enums with more than 3 variants and mnemonics outside the pool are not generated.",
          "DESIGN.md section 5 (C20)"),
 }
